@@ -10,6 +10,7 @@ TRUSTED = [
     'Kani 0.68 + CBMC 6.11 (bit-precise symbolic execution); loop-free harnesses over full-domain bytes are complete for the instantiation',
     'rustc nightly -Zunpretty=expanded: the verified text is what it prints for /repo',
     "vstd's specifications of PartialEq/PartialOrd/Ord for integers, Option and pairs, and of Ord::min/max",
+    "assumed: std's `impl PartialOrd for Reverse<T>` compares the wrapped values with swapped arguments",
     'rewrite rules R1 (mut self), R2 (|= on bool), R3 (attributes, derives), R5 (path prefixes) preserve semantics (argued in DESIGN.md section 3)',
     'spec-level == is structural equality; for generic parameters this is tied to PartialEq by the hypothesis lat_wf()',
 ]
@@ -162,6 +163,7 @@ def run(pid, tier):
         'bounded_standins_not_counted_as_proved': {h: {'evaluated': r['evaluated'], 'domain': r['domain'], 'failures': len(r['failures'])}
                                                    for h, r in bounded.items()},
         'functions_under_contract': sorted(set('%s::%s %s :: %s' % (f['crate'], f['mod'], f['container'], f['fn']) for f in log.real_fns + sv['log'].real_fns)),
+        'lattice_unit_assumption_scan': scan_assumptions(open(v['path']).read()),
         'set_unit_assumption_scan': scan_assumptions(open(sv['path']).read()),
         'functions_assumed_in_verus_proved_by_kani': log.external,
         'rewrites_applied': summarize_rewrites(log.rewrites + sv['log'].rewrites),
